@@ -173,7 +173,10 @@ def postStr : PostRes → String
 def handleAssert (kv : List (String × String)) (impl : String) : String × String :=
   match parseHexList (getS kv "pats"), parseNamed (getS kv "hdrs"), parseNamed (getS kv "chk"), parseSize (getS kv "size"),
       bytesOfHex (getS kv "body") with
-  | some pats, some hdrs, some chk, some size, some body =>
+  | some pats, some hdrs, some chk, some size, some body0 =>
+    -- `nobody=1`: Process is handed a nil reader; under the `body != nil` guard (Bridge.C19.httpBodyReadCond_eq) nothing is
+    -- read and `b` stays nil: the assertion sees an empty body
+    let body : List Char := if getS kv "nobody" == "1" then [] else body0
     let a : AssertCfg := { headers := chk, body := pats, statusCode := (getN? kv "cfgst").getD 0, size := size }
     let r : Resp := { status := (getN? kv "st").getD 200
                       header := fun n => ((hdrs.find? (·.1 == n)).map (·.2)).getD []
